@@ -934,5 +934,93 @@ theorem runVertexOriented_tree {I : Inst α} (hI : WF I) (source : Nat) (sched :
     · cases h0.1
     · exact ⟨rfl, hinv⟩
 
+/-! ### Non-vacuity: a concrete instance over ℚ
+
+Four vertices, six edges with positive costs, among them a parallel pair (0, 1 : 0→1) and a self
+loop (2 : 1→1).  The hypotheses `WF` hold, the schedule `[0, 1, 2]` is accepted and
+`runVertexOriented` returns the two-edge route `[0, 3]` (cost 3 = label of the target, the direct
+edge 4 of cost 5 is replaced when vertex 1 is expanded). -/
+
+namespace Example
+
+/-- edges: 0: 0→1 (1), 1: 0→1 (3, parallel), 2: 1→1 (1, self loop), 3: 1→2 (2), 4: 0→2 (5), 5: 2→3 (1) -/
+def src : Nat → Nat
+  | 0 => 0 | 1 => 0 | 2 => 1 | 3 => 1 | 4 => 0 | 5 => 2 | _ => 9
+def dst : Nat → Nat
+  | 0 => 1 | 1 => 1 | 2 => 1 | 3 => 2 | 4 => 2 | 5 => 3 | _ => 9
+def cost : Nat → ℚ
+  | 0 => 1 | 1 => 3 | 2 => 1 | 3 => 2 | 4 => 5 | 5 => 1 | _ => 1
+def out : Nat → List Nat
+  | 0 => [0, 1, 4] | 1 => [2, 3] | 2 => [5] | _ => []
+
+def inst : Inst ℚ where
+  incident := out
+  keyV := dst
+  termV := src
+  init := []
+  valid := fun _ _ _ => .ok true
+  trav := fun e _ _ => .ok (0, cost e, [])
+  h := fun _ _ => .ok 0
+  term := fun _ _ => .ok ()
+
+def routeEdges (r : Except ErrKind (SearchResult ℚ)) : Option (List Nat) :=
+  match r with
+  | .ok res => res.route.map (·.map (·.edge))
+  | .error _ => none
+
+-- #eval routeEdges (runVertexOriented inst 0 (some 2) [0, 1, 2])   -- some [0, 3]
+
+example : routeEdges (runVertexOriented inst 0 (some 2) [0, 1, 2]) = some [0, 3] := by
+  decide +kernel
+
+theorem inst_wf : WF inst where
+  incident_term := by
+    intro v e h
+    change e ∈ out v at h
+    change src e = v
+    unfold out at h
+    split at h <;> simp at h
+    · rcases h with rfl | rfl | rfl <;> rfl
+    · rcases h with rfl | rfl <;> rfl
+    · subst h; rfl
+  cost_pos := by
+    intro e le st ac tc st' h
+    simp only [inst, Except.ok.injEq, Prod.mk.injEq] at h
+    obtain ⟨rfl, rfl, _⟩ := h
+    unfold cost
+    split <;> norm_num
+
+def labelOf (r : Except ErrKind (SearchResult ℚ)) (v : Nat) : Option ℚ :=
+  match r with
+  | .ok res => res.final.g v
+  | .error _ => none
+
+def errOf (r : Except ErrKind (SearchResult ℚ)) : Option ErrKind :=
+  match r with
+  | .ok _ => none
+  | .error k => some k
+
+example : labelOf (runVertexOriented inst 0 (some 2) [0, 1, 2]) 2 = some 3 := by decide +kernel
+example : errOf (runVertexOriented inst 0 (some 2) [0, 2]) = some .badSchedule := by decide +kernel
+example : errOf (runVertexOriented inst 0 (some 3) [0, 1, 2]) = some .scheduleExhausted := by decide +kernel
+example : errOf (runVertexOriented inst 3 (some 0) [3]) = some .noPath := by decide +kernel
+
+example : ∃ res route, runVertexOriented inst 0 (some 2) [0, 1, 2] = .ok res ∧
+    res.route = some route ∧ route.map (·.edge) = [0, 3] ∧
+    RouteChain inst 0 res.final 2 route := by
+  cases h : runVertexOriented inst 0 (some 2) [0, 1, 2] with
+  | error k =>
+    have : routeEdges (runVertexOriented inst 0 (some 2) [0, 1, 2]) = some [0, 3] := by decide +kernel
+    rw [h] at this
+    simp [routeEdges] at this
+  | ok res =>
+    have h1 : routeEdges (runVertexOriented inst 0 (some 2) [0, 1, 2]) = some [0, 3] := by decide +kernel
+    obtain ⟨_, _, route, gt, hr, _, hrc, _, _⟩ := runVertexOriented_route inst_wf 0 2 [0, 1, 2] res (by decide) h
+    rw [h] at h1
+    simp [routeEdges, hr] at h1
+    exact ⟨res, route, rfl, hr, by simpa using h1, hrc⟩
+
+end Example
+
 end SearchTree
 end Compass
